@@ -154,6 +154,21 @@ struct Case {
 };
 
 // ---------------------------------------------------------------------------
+// Recent cases: checks of functions that should be stateless run thousands of cases in one process.  If the code
+// under test keeps state between calls (a cache, a static buffer), a failure depends on the calls before it and would
+// not reproduce from the failing case alone.  A harness that opts in (History::enabled()) gets the last few cases
+// attached to every failing case ("recent_cases_hex"); replay runs them first, in order.
+struct History {
+  static bool& enabled() { static bool e = false; return e; }
+  static std::vector<std::string>& ring() { static std::vector<std::string> r; return r; }
+  static void push(const std::string& ser) {
+    if (!enabled() || ser.size() > 8192) return;
+    auto& r = ring(); r.push_back(ser); if (r.size() > 3) r.erase(r.begin());
+  }
+  static std::string packed();
+};
+
+// ---------------------------------------------------------------------------
 struct Args {
   std::string mode = "run";  // run | replay
   std::string tier = "quick";
@@ -299,6 +314,7 @@ struct Reporter {
   void failing(const Case& c, const std::string& why) {
     if (!first_failure) first_failure = time(nullptr);
     Case cc = c;
+    if (History::enabled() && !History::ring().empty()) cc.set("recent_cases_hex", History::packed());
     cc.set("property", prop);
     cc.set("why", why);
     latest_text = cc.serialize();
@@ -334,6 +350,7 @@ struct Current {
     if (done || !fn() || path().empty()) return;
     done = true;
     Case c = fn()();
+    if (History::enabled() && !History::ring().empty()) c.set("recent_cases_hex", History::packed());
     c.set("property", prop());
     c.set("why", how);
     write_file(path(), c.serialize());
@@ -342,7 +359,7 @@ struct Current {
 struct CurrentScope {  // RAII registration
   std::function<Case()> saved;
   explicit CurrentScope(std::function<Case()> f) { saved = Current::fn(); Current::fn() = std::move(f); }
-  ~CurrentScope() { Current::fn() = saved; }
+  ~CurrentScope() { if (History::enabled() && Current::fn()) History::push(Current::fn()().serialize()); Current::fn() = saved; }
 };
 }  // namespace vf
 extern "C" void __sanitizer_set_death_callback(void (*)(void)) __attribute__((weak));
@@ -363,6 +380,8 @@ inline void install_death_hooks(const Args& a, const std::string& prop) {
   signal(SIGALRM, abort_handler);
 }
 
+inline std::string History::packed() { std::string t; for (auto& x : ring()) t += hex(x) + ","; return t; }
+
 using RunFn = std::function<void(const Args&, Evidence&, Reporter&)>;
 using ReplayFn = std::function<bool(const Case&, std::string*)>;
 
@@ -378,6 +397,10 @@ inline int main_dispatch(int argc, char** argv, const std::string& prop,
     if (!ok) { fprintf(stderr, "cannot read %s\n", a.replay_file.c_str()); return 2; }
     Case c = Case::parse(text);
     std::string why;
+    if (c.has("recent_cases_hex")) {  // the cases that ran just before this one in the original process, in order
+      std::istringstream hs(c.get("recent_cases_hex")); std::string tok, ignored;
+      while (std::getline(hs, tok, ',')) if (!tok.empty()) replay(Case::parse(unhex(tok)), &ignored);
+    }
     bool pass = replay(c, &why);
     if (pass) { printf("REPLAY-PASS %s\n", a.replay_file.c_str()); return 0; }
     printf("REPLAY-FAIL %s: %s\n", a.replay_file.c_str(), why.c_str());
